@@ -228,3 +228,52 @@ package oras
 //@   ensures [C02:cancel-surfaces] recvd(ctxDone(ctx)) ==> err != nil
 //@   ensures [C04:at-most-one-copy] cgCopies <= 1
 //@   ensures [C04:permit-held-on-success] err == nil ==> region == nil || !region.ended
+//@
+//@ // ---------------------------------------------------------------- root tagging (C01)
+//@ ghost local pcTagged bool
+//@ ghost local pcRefPushed bool
+//@ ghost local pcUserSkip bool
+//@
+//@ func copyCachedNodeWithReference
+//@   trusted
+//@   ensures result != SkipNode
+//@   ensures forall o any, k descriptor.Descriptor :: old(present(o, k)) ==> present(o, k)
+//@   modifies ghost.present, ghost.pushes, ghost.lastPush, ghost.closedRC, ghost.readerOver, alloc, elems[any]
+//@
+//@ iface content.Tagger.Tag params ctx, desc, reference
+//@   ensures forall o any, k descriptor.Descriptor :: old(present(o, k)) ==> present(o, k)
+//@   modifies ghost.present, alloc
+//@
+//@ func prepareCopy
+//@   requires [wf] opts != nil && dst != nil
+//@   ensures [C01:skip-hook-installed] opts.OnCopySkipped != nil && !old(alive(now(opts.OnCopySkipped)))
+//@   ensures [C01:reference-push-hook-installed] implements(dst, registry.ReferencePusher) ==> opts.PreCopy != nil && !old(alive(now(opts.PreCopy)))
+//@   ensures [C01:tag-hook-installed] !implements(dst, registry.ReferencePusher) ==> opts.PostCopy != nil && !old(alive(now(opts.PostCopy)))
+//@   ensures [C01:no-error] result == nil
+//@
+//@ func prepareCopy$1
+//@   requires [wf] opts != nil && refPusher != nil && proxy != nil
+//@   entry set pcRefPushed = false
+//@   entry set pcUserSkip = false
+//@   callee preCopy CopyHook
+//@   call preCopy set pcUserSkip = result == SkipNode
+//@   call copyCachedNodeWithReference set pcRefPushed = pcRefPushed || (result == nil && args.dstRef == dstRef && args.desc == desc && args.dst == refPusher)
+//@   ensures [C01:root-pushed-with-destination-reference] result == SkipNode && !pcUserSkip ==> sameDesc(desc, root) && pcRefPushed
+//@   ensures [C01:non-root-untouched] !sameDesc(desc, root) ==> !pcRefPushed && (result == SkipNode ==> pcUserSkip)
+//@
+//@ func prepareCopy$2
+//@   requires [wf] dst != nil
+//@   callee postCopy CopyHook
+//@   entry set pcTagged = false
+//@   call dst.Tag set pcTagged = pcTagged || (result == nil && args.reference == dstRef && args.desc == root)
+//@   ensures [C01:root-tagged-after-copy] sameDesc(desc, root) && result == nil ==> pcTagged
+//@
+//@ func prepareCopy$3
+//@   requires [wf] dst != nil && proxy != nil
+//@   callee onCopySkipped CopyHook
+//@   entry set pcTagged = false
+//@   call dst.Tag set pcTagged = pcTagged || (result == nil && args.reference == dstRef && args.desc == root)
+//@   call copyCachedNodeWithReference set pcTagged = pcTagged || (result == nil && args.dstRef == dstRef && args.desc == desc)
+//@   ensures [C01:root-tagged-when-already-present] sameDesc(desc, root) && result == nil ==> pcTagged
+//@
+//@ pure sameDesc(a ocispec.Descriptor, b ocispec.Descriptor) bool = a.Size == b.Size && a.Digest == b.Digest && a.MediaType == b.MediaType
